@@ -63,11 +63,11 @@ Definition x_vop1_f (op : Z) : option vdesc :=
   | 30 => Some (mkV 1 0 0 0 0 CNone MNone (fun a _ _ _ => val (f32_rndne a)))   (* float32(math.RoundToEven(float64(src))) *)
   | _ => None
   end.
-(** CDNA3 only: v_cvt_f64_u32.  The decode table gives the opcode DSTWidth 32, so
-    WriteOperand stores only the low dword of the binary64 result. *)
+(** CDNA3 only: v_cvt_f64_u32 (the decode table gives the opcode DSTWidth 64 since
+    the repair: WriteOperand stores both dwords of the binary64 result). *)
 Definition c_vop1_f (op : Z) : option vdesc :=
   match op with
-  | 22 => Some (mkV 1 0 0 0 0 CNone MNone (fun a _ _ _ => val (f64_of_Z (u32 a))))
+  | 22 => Some (mkV 1 0 0 0 2 CNone MNone (fun a _ _ _ => val (f64_of_Z (u32 a))))
   | _ => x_vop1_f op
   end.
 (** binary64 arithmetic: src0 + src1, src0 * src1 on the float64 images (abs/neg = 0) *)
